@@ -447,7 +447,16 @@ class C09(Prop):
                 cases.append({"kind": "explore", "asset": a[0], "fkind": a[2], "mutation": "macho-entry-sweep", "what": [what],
                               "edits": [edit], "layout": None, "params": {"process_memory": len(cases) % 4 == 0},
                               "rules": mrules})
-        n_explore += sum(1 for c in cases if c["mutation"] in ("dotnet-index", "macho-entry-sweep"))
+        # systematic: every header field announcing a number of entries := more than the file holds (and 0)
+        for a in fmt:
+            if len(a[1]) > 100000 and n <= 5000:
+                continue
+            crules = [{"tag": "r0", "imports": FILE_MODULES, "cond": "pe.number_of_sections >= 0 or elf.number_of_sections >= 0 or "
+                       "macho.ncmds >= 0 or dotnet.number_of_streams >= 0 or dex.number_of_methods >= 0"}]
+            for what, edit in mg.count_field_sweep(a[1], a[2]):
+                cases.append({"kind": "explore", "asset": a[0], "fkind": a[2], "mutation": "count-field", "what": [what],
+                              "edits": [edit], "layout": None, "params": {"process_memory": False}, "rules": crules})
+        n_explore += sum(1 for c in cases if c["mutation"] in ("dotnet-index", "macho-entry-sweep", "count-field"))
         i = 0
         while len(cases) < n_explore:
             r = rng.fork("m%d" % i)
